@@ -119,6 +119,16 @@ def sparse_large():
         for s in (1, 2, 3, 5, 8):
             for st in (0, 1):
                 out.append(mkcfg("Mixed", max_n=n, ram=s, st=st))
+    # a few giants, and a few runs with many adjoint passes
+    out += [mkcfg("Multistage", max_n=150, ram=0, disk=7), mkcfg("Multistage", max_n=97, ram=3, disk=4, traj=1),
+            mkcfg("Multistage", max_n=211, ram=2, disk=1), mkcfg("Mixed", max_n=120, ram=9, st=0),
+            mkcfg("Mixed", max_n=83, ram=3, st=1), mkcfg("TwoLevel", N=95, passes=2, period=40, ram=3, st=0),
+            mkcfg("TwoLevel", N=64, passes=2, period=9, ram=1, st=1, traj=1),
+            mkcfg("HRevolve", max_n=60, ram=3, disk=4), mkcfg("HRevolve", max_n=45, ram=1, disk=2, uf=2, ub=1, wd=1, rd=3),
+            mkcfg("DiskRevolve", max_n=64, ram=2), mkcfg("PeriodicDiskRevolve", max_n=80, ram=3),
+            mkcfg("Revolve", max_n=75, ram=5), mkcfg("SingleDiskCopy", N=60, passes=2), mkcfg("SingleMemory", N=200, passes=2),
+            mkcfg("TwoLevel", N=7, passes=7, period=3, ram=1, st=0), mkcfg("TwoLevel", N=8, passes=6, period=4, ram=2, st=1),
+            mkcfg("SingleDiskCopy", N=3, passes=7), mkcfg("SingleMemory", N=2, passes=8)]
     for n in (13, 15, 19):
         for cm in (1, 2, 3):
             for c in (COSTS8[0], COSTS8[2], COSTS8[6], COSTS8[7], FRAC[0]):
